@@ -46,7 +46,19 @@
 //	           assigned in the loop body. Arrays are Go values. A write through a pointer is accepted
 //	           only for a local created by p := &T{...} that is never copied (and for the receiver of
 //	           a state-passing method).
-//	shadowing  a local that shadows another local of the same function is rejected.
+//	strings    a Go string is its bytes (list Z): len, s[i], s[i:j], append(dst, s...), ==, string
+//	           constants, []byte(s) / string(b); `range s` (runes) and + are rejected.
+//	[]bool     list bool: len and range only.
+//	embedding  an embedded struct is an ordinary field named after its type; promoted fields and
+//	           promoted methods are resolved through it.
+//	*byte      option (list Z): the bytes from that address on; nil tests, unsafe.Slice(p, n)
+//	           (GPanic past the allocation or on a negative length), unsafe.SliceData(s).
+//	allocators registerFreshAlloc2: a method that returns a pointer to a fresh zero struct (slab /
+//	           pool); trusted; the local it initialises may be written through.
+//	mut calls  a call of a state-passing (receiver-mutating) method writes the updated receiver back
+//	           into the receiver operand, which must be a local the function owns (fresh pointer,
+//	           its own receiver, struct value), possibly through embedded fields.
+//	shadowing  a local that shadows an EARLIER-declared local of the same function is rejected.
 //	capacity   not modelled: s[lo:hi] is checked against len(s) (stricter than Go's cap(s)).
 //
 // Output: one Coq Module per package (dependency order), generated Records for the struct types
